@@ -43,7 +43,7 @@ func ownerOf(info *types.Info, e ast.Expr) (ast.Expr, bool) {
 
 // RuleE1: the file and the index of every error come from the same object.
 func RuleE1(c *Ctx) {
-	sc := c.Run.Begin("E1", "the file and the byte index handed to jerr.NewJApiError come from the same object (scanner, lexeme, coordinates) at every call site, through wrappers; the one cross-object wrapper is confined to the scan stage (E2a)", 2)
+	sc := c.Run.Begin("E1", "the file and the byte index handed to jerr.NewJApiError come from the same object (scanner, lexeme, coordinates) at every call site, through wrappers; the one cross-object wrapper is confined to the scan stage (E2a)", 1)
 	defer sc.End()
 	newErr := c.Func("jerr", "NewJApiError")
 	if newErr == nil {
@@ -280,7 +280,7 @@ func (c *Ctx) reachFromAny(roots []*types.Func, target *types.Func) string {
 
 // RuleE2b: every error gets its include trace.
 func RuleE2b(c *Ctx) {
-	sc := c.Run.Begin("E2b", "every jerr.NewJApiError call site is either in the directive error constructor, which passes the error through its include tracer on every path, or in code reachable only from the scan stage, whose deferred AddIncludeTraceToError on the named result is present", 2)
+	sc := c.Run.Begin("E2b", "every jerr.NewJApiError call site is either in the directive error constructor, which passes the error through its include tracer on every path, or in code reachable only from the scan stage, whose deferred AddIncludeTraceToError on the named result is present", 1)
 	defer sc.End()
 	newErr := c.Func("jerr", "NewJApiError")
 	scan := c.scanStage()
